@@ -24,7 +24,7 @@ def _duality(be, c, r):
     N = c.N
     M = Bk.cmap(c)
     snap = B.snapshot(M)
-    S = M.to_state(r) if r is not None else M.to_state()
+    S = M.to_state(B.int_form(r, be)) if r is not None else M.to_state()
     rr = 0 if r is None else r
     l, k, r_got = Bk.read_state(S)
     EL, EK = B.tableau_rows(c)
@@ -115,7 +115,7 @@ def f_ctor(case):
         if N == 1:
             v = (_ket([0]) + _ket([1])) / np.sqrt(2); rho = np.outer(v, v.conj())
     elif name == 'mixed':
-        make = lambda: sm.maximally_mixed_state(N); rho = np.eye(D) / D; r = N
+        make = lambda: sm.maximally_mixed_state(B.int_form(N, be)); rho = np.eye(D) / D; r = N
     if make is not None:
         S = make()
     elif name == 'random_bit':
@@ -131,7 +131,7 @@ def f_ctor(case):
     elif name == 'random_pauli':
         rng.seed_all(case['seed'], torch=(be == 'torch'))
         r = case['r']
-        S = sm.random_pauli_state(N, r)
+        S = sm.random_pauli_state(N, B.int_form(r, be))
         l, k, r_got = Bk.read_state(S)
         why = ref.tableau_invariant(l, k, r_got)
         check(why is None, 'random_pauli_state invalid: %s' % why, 'invariant')
@@ -321,7 +321,7 @@ def f_map_history(case):
         t = stp['t']
         if t == 'to_state':
             r = stp['r'] % (N + 1)
-            S = M.to_state(r)
+            S = M.to_state(B.int_form(r, be))
             l, k, rr = Bk.read_state(S)
             EL, EK = B.tableau_rows(cur)
             nconv += 1
@@ -331,7 +331,7 @@ def f_map_history(case):
         elif t == 'embed':
             q = stp['qubits']
             small = C.dec_clifford(stp['rows'])
-            M.embed(Bk.cmap(small), Bk.mask(q, N)); nedit += 1
+            M.embed(Bk.cmap(small), Bk.mask_arg(q, N)); nedit += 1
             Lx, Kx = cur.L.copy(), cur.K.copy()
             for a, qa in enumerate(q):
                 for b2 in (0, 1):
